@@ -1,4 +1,36 @@
-(* placeholder so that the pipeline can be exercised; replaced by the real theorems *)
-From SV Require Import Names Rep.
-Theorem C02_placeholder : True. Proof. exact I. Qed.
-Print Assumptions C02_placeholder.
+(* C02 -- each mutator has exactly its set-theoretic effect and a frame.
+   Theorem statements only; proofs (by computation in the kernel) in Sweeps.v.
+   BOUNDED: proved for every complex on at most 4 labelled points (167 complexes, built by basis
+   with library-generated names for the inner simplices) and every applicable request; the
+   unbounded statement is tested by the oracle (evidence: tested_only). *)
+From Coq Require Import String ZArith Bool Arith List.
+From SV Require Import Names Rep Complex Homology Filtration Gen World Small Sweeps.
+
+(* building by basis gives exactly the non-empty subsets of the given simplices, a well-formed
+   complex whose views agree *)
+Theorem C02_add_by_basis_builds_upto4_partial : forall c, In c complexes4 ->
+  fam_eq (fam (build c)) (closure_of c) && wfb (build c) && viewsb (build c) = true.
+Proof. exact built_complexes_upto4. Qed.
+Print Assumptions C02_add_by_basis_builds_upto4_partial.
+
+(* deleting s removes exactly the simplices whose vertex set contains that of s; every other
+   simplex keeps its name, order, faces and basis; the result is well formed *)
+Theorem C02_delete_upto4_partial : forall c, In c complexes4 -> chk_delete (build c) = true.
+Proof. exact delete_upto4. Qed.
+Print Assumptions C02_delete_upto4_partial.
+
+(* restricting to any set of points keeps exactly the simplices all of whose vertices lie in it *)
+Theorem C02_restrict_upto4_partial : forall c, In c complexes4 -> chk_restrict (build c) = true.
+Proof. exact restrict_upto4. Qed.
+Print Assumptions C02_restrict_upto4_partial.
+
+(* adding by basis any absent vertex set (over the points and one new point) adds exactly its
+   missing non-empty subsets, names the top simplex as requested, keeps everything else *)
+Theorem C02_add_by_basis_upto4_partial : forall c, In c complexes4 -> chk_addb (build c) = true.
+Proof. exact addb_upto4. Qed.
+Print Assumptions C02_add_by_basis_upto4_partial.
+
+(* subdividing removes the star and joins one fresh point to every proper face *)
+Theorem C02_subdivide_upto4_partial : forall c, In c complexes4 -> chk_subdiv (build c) = true.
+Proof. exact subdiv_upto4. Qed.
+Print Assumptions C02_subdivide_upto4_partial.
